@@ -53,6 +53,7 @@ def parse_engines(line):
 
 
 def run_impl(impl, lines, timeout=3000):
+    CURRENT_IMPL[0] = impl
     rc, out, err = vlib.run_lines(impl, lines, timeout=timeout)
     if rc != 0 or len(out) != len(lines):
         raise vlib.BuildError('engine harness failed: rc=%d out=%d/%d %s' % (rc, len(out), len(lines), err[-400:]))
@@ -88,6 +89,42 @@ def run_model_parallel(model, lines, jobs=4):
     return out
 
 
+_SYMS = {}
+
+
+def crash_site(impl, bt):
+    """name of the innermost library function of a backtrace printed by the harness crash handler
+    (offsets relative to crash_handler); '' when it cannot be resolved (e.g. crash in JIT code)"""
+    try:
+        if impl not in _SYMS:
+            rc, out, err = vlib.sh(['nm', impl])
+            base = None
+            for l in out.split('\n'):
+                w = l.split()
+                if len(w) == 3 and w[2] == 'crash_handler':
+                    base = int(w[0], 16)
+            _SYMS[impl] = base
+        base = _SYMS[impl]
+        if base is None:
+            return ''
+        addrs = ['%x' % (base + int(x, 16)) for x in bt.split(',') if x]
+        rc, out, err = vlib.sh(['addr2line', '-f', '-e', impl] + addrs)
+        names = [n for n in out.split('\n')[0::2]
+                 if n and n not in ('??', 'crash_handler')
+                 and not n.startswith(('_', 'killpg', 'gsignal', 'raise', 'abort'))]
+        chain = []
+        for n in names:
+            if n not in chain:
+                chain.append(n)
+        return '<'.join(chain[:3])
+    except Exception:
+        pass
+    return ''
+
+
+CURRENT_IMPL = [None]
+
+
 def kind_of(v):
     """short stable kind of an engine observation that differs from the model's"""
     if v.startswith('HARNESS-ERROR oracle exhausted'):
@@ -99,6 +136,9 @@ def kind_of(v):
     w = v.split()
     if w[0] == 'CRASH':
         k = 'CRASH-' + (w[1].replace('=', '') if len(w) > 1 else '')
+        if 'bt=' in v and CURRENT_IMPL[0]:
+            site = crash_site(CURRENT_IMPL[0], v.split('bt=', 1)[1].split()[0])
+            k = 'CRASH-in-' + site if site else k + '-in-generated-code'
         if 'msg=' in v:
             m = v.split('msg=', 1)[1].split()
             if m[:5] == ['Fatal', 'failure', 'in', 'matching', 'insn:'] and len(m) > 5:
@@ -118,6 +158,24 @@ def classify(model_obs, eng):
             continue
         cats.append(k + ':' + kind_of(v))
     return ' '.join(cats)
+
+
+# crash sites of recorded (not repaired) defects: a generated program whose ONLY disagreement is a crash
+# at such a site in MIR_gen -O2/-O3 is the recorded defect again, reported under its known signature
+KNOWN_CRASH_SITES = {
+    # keyed by the two innermost frames
+    'move_p<process_bb_conflicts': 'known:coalesce-walks-off-insn-list',
+}
+
+
+def known_signature(cat):
+    sigs = set()
+    for c in cat.split():
+        eng, kind = c.split(':', 1)
+        if eng not in ('g2', 'g3') or not kind.startswith('CRASH-in-'):
+            return None
+        sigs.add(KNOWN_CRASH_SITES.get('<'.join(kind[len('CRASH-in-'):].split('<')[:2])))
+    return sigs.pop() if len(sigs) == 1 and None not in sigs else None
 
 
 def is_violation_cat(cat):
@@ -248,6 +306,12 @@ def differential(chk, impl, model, progs, engines, label, defs=(), max_report=3)
             # the library rejected a generated program: generator/model problem, not a property verdict
             chk.dist(label + ':rejected-by-mir', cat)
             chk.notes.append('%s: program rejected by MIR (%s): %s' % (label, cat, list(e.values())[0][:200]))
+            continue
+        ks = known_signature(cat)
+        if ks is not None:
+            chk.dist(label + ':recorded-defect-hit', ks)
+            chk.finding(ks, replay_obj(p, opnum, engines, mo[i], e, defs),
+                        '%s: recorded defect reproduced by a generated program (%s)' % (label, cat))
             continue
         ndiv += 1
         if ndiv > max_report:
